@@ -18,7 +18,7 @@ theorem regUsers_ok (f : PPath → PPath) (st : Stores) (d : Doc) (he : st.users
     regUsers st d = .ok { st with users := (ideal os f).users } := by
   have h := addAll_map' (·.uuid) (·.uuid) encUser id
     (fun (_ : Store Atom User) o => (pure (decUser o) : Except Err User))
-    (dedupBy (·.uuid) (usersOf os)) (fun _ => rfl) (dedupBy_keys_nodup _ _) (fun _ x _ => rfl)
+    (dedupBy (·.uuid) (usersOf os)) (fun _ => rfl) (dedupBy_nodup_keys _ _) (fun _ x _ => rfl)
   rw [regUsers, he, hd, h]; rfl
 
 theorem regTags_ok (f : PPath → PPath) (st : Stores) (d : Doc) (he : st.tags = [])
@@ -44,9 +44,9 @@ theorem regRecs_ok (hp : PathsOK sd os) (st : Stores) (d : Doc) (he : st.recs = 
   have h := addAll_map' (·.uuid) (·.uuid) (encRecordingT (tagTable os) sd)
     (Recording.mapPath (relocated sd ld))
     (fun (_ : Store Atom Recording) o => (pure (decRecording st ld o) : Except Err Recording))
-    (dedupBy (·.uuid) (recsOf os)) (fun _ => rfl) (dedupBy_keys_nodup _ _)
+    (dedupBy (·.uuid) (recsOf os)) (fun _ => rfl) (dedupBy_nodup_keys _ _)
     (fun _ x hx => by
-      have hx' := mem_recsOf.1 (mem_dedupBy _ hx)
+      have hx' := recsOf_mem.1 (dedupBy_subset _ hx)
       exact congrArg Except.ok (decRecording_enc cx hU hT hx' (hp x hx')))
   rw [regRecs, he, hd, h]; rfl
 
@@ -56,8 +56,8 @@ theorem regClips_ok (st : Stores) (d : Doc) (he : st.clips = [])
     regClips st d = .ok { st with clips := (ideal os (relocated sd ld)).clips } := by
   have h := addAll_map' (·.uuid) (·.uuid) encClip (Clip.mapPath (relocated sd ld))
     (fun (_ : Store Atom Clip) o => decClip st o)
-    (dedupBy (·.uuid) (clipsOf os)) (fun _ => rfl) (dedupBy_keys_nodup _ _)
-    (fun _ x hx => decClip_enc cx hR (mem_clipsOf.1 (mem_dedupBy _ hx)))
+    (dedupBy (·.uuid) (clipsOf os)) (fun _ => rfl) (dedupBy_nodup_keys _ _)
+    (fun _ x hx => decClip_enc cx hR (clipsOf_mem.1 (dedupBy_subset _ hx)))
   rw [regClips, he, hd, h]; rfl
 
 theorem regSes_ok (st : Stores) (d : Doc) (he : st.ses = [])
@@ -66,15 +66,15 @@ theorem regSes_ok (st : Stores) (d : Doc) (he : st.ses = [])
     regSes st d = .ok { st with ses := (ideal os (relocated sd ld)).ses } := by
   have h := addAll_map' (·.uuid) (·.uuid) encSoundEvent (SoundEvent.mapPath (relocated sd ld))
     (fun (_ : Store Atom SoundEvent) o => decSoundEvent st o)
-    (dedupBy (·.uuid) (sesOf os)) (fun _ => rfl) (dedupBy_keys_nodup _ _)
-    (fun _ x hx => decSoundEvent_enc cx hR (mem_sesOf.1 (mem_dedupBy _ hx)))
+    (dedupBy (·.uuid) (sesOf os)) (fun _ => rfl) (dedupBy_nodup_keys _ _)
+    (fun _ x hx => decSoundEvent_enc cx hR (sesOf_mem.1 (dedupBy_subset _ hx)))
   rw [regSes, he, hd, h]; rfl
 
 theorem regSeqs_ok (hpb : SeqPB [] os) (st : Stores) (d : Doc) (he : st.seqs = [])
     (hd : lst d.sequences = (dedupBy (·.uuid) (seqsOf os)).map encSequence)
     (hS : SesOK (relocated sd ld) os st) :
     regSeqs st d = .ok { st with seqs := (ideal os (relocated sd ld)).seqs } := by
-  have hnd := dedupBy_keys_nodup (fun s : Sequence => s.uuid) (seqsOf os)
+  have hnd := dedupBy_nodup_keys (fun s : Sequence => s.uuid) (seqsOf os)
   have hrb := reqBefore_dedupBy (fun s : Sequence => s.uuid) (seqsOf os) (seqs_reqBefore hpb)
   have h := addAll_map (·.uuid) (fun s : Sequence => s.uuid) encSequence
     (Sequence.mapPath (relocated sd ld))
@@ -82,13 +82,13 @@ theorem regSeqs_ok (hpb : SeqPB [] os) (st : Stores) (d : Doc) (he : st.seqs = [
     (dedupBy (·.uuid) (seqsOf os)) (fun _ => rfl) hnd
     (fun p x q hD => by
       have hxD : x ∈ dedupBy (fun s : Sequence => s.uuid) (seqsOf os) := by rw [hD]; simp
-      have hx := mem_seqsOf.1 (mem_dedupBy _ hxD)
+      have hx := seqsOf_mem.1 (dedupBy_subset _ hxD)
       refine congrArg Except.ok (decSequence_enc cx hS hx _ ?_)
       intro a as hanc
       rcases hrb p x q a.uuid hD (by simp [seqReq, hanc]) with ⟨s', hs'p, hk⟩
-      have hs'L : s' ∈ seqsOf os := mem_dedupBy _ (by rw [hD]; exact List.mem_append.2 (Or.inl hs'p))
+      have hs'L : s' ∈ seqsOf os := dedupBy_subset _ (by rw [hD]; exact List.mem_append.2 (Or.inl hs'p))
       have hparL : (⟨a, as⟩ : Sequence) ∈ seqsOf os := by
-        apply mem_seqsOf.2
+        apply seqsOf_mem.2
         apply cx.closed _ hx
         rcases x with ⟨n, anc⟩
         simp only at hanc
@@ -109,8 +109,8 @@ theorem regSeas_ok (st : Stores) (d : Doc) (he : st.seas = [])
   have h := addAll_map' (·.uuid) (·.uuid) (encSEA (tagTable os))
     (SoundEventAnnotation.mapPath (relocated sd ld))
     (fun (_ : Store Atom SoundEventAnnotation) o => decSEA st o)
-    (dedupBy (·.uuid) (seasOf os)) (fun _ => rfl) (dedupBy_keys_nodup _ _)
-    (fun _ x hx => decSEA_enc cx hU hT hS (mem_seasOf.1 (mem_dedupBy _ hx)))
+    (dedupBy (·.uuid) (seasOf os)) (fun _ => rfl) (dedupBy_nodup_keys _ _)
+    (fun _ x hx => decSEA_enc cx hU hT hS (seasOf_mem.1 (dedupBy_subset _ hx)))
   rw [regSeas, he, hd, h]; rfl
 
 theorem regSqas_ok (st : Stores) (d : Doc) (he : st.sqas = [])
@@ -120,8 +120,8 @@ theorem regSqas_ok (st : Stores) (d : Doc) (he : st.sqas = [])
   have h := addAll_map' (·.uuid) (·.uuid) (encSQA (tagTable os))
     (SequenceAnnotation.mapPath (relocated sd ld))
     (fun (_ : Store Atom SequenceAnnotation) o => decSQA st o)
-    (dedupBy (·.uuid) (sqasOf os)) (fun _ => rfl) (dedupBy_keys_nodup _ _)
-    (fun _ x hx => decSQA_enc cx hU hT hS (mem_sqasOf.1 (mem_dedupBy _ hx)))
+    (dedupBy (·.uuid) (sqasOf os)) (fun _ => rfl) (dedupBy_nodup_keys _ _)
+    (fun _ x hx => decSQA_enc cx hU hT hS (sqasOf_mem.1 (dedupBy_subset _ hx)))
   rw [regSqas, he, hd, h]; rfl
 
 theorem regSeps_ok (st : Stores) (d : Doc) (he : st.seps = [])
@@ -131,8 +131,8 @@ theorem regSeps_ok (st : Stores) (d : Doc) (he : st.seps = [])
   have h := addAll_map' (·.uuid) (·.uuid) (encSEP (tagTable os))
     (SoundEventPrediction.mapPath (relocated sd ld))
     (fun (_ : Store Atom SoundEventPrediction) o => decSEP st o)
-    (dedupBy (·.uuid) (sepsOf os)) (fun _ => rfl) (dedupBy_keys_nodup _ _)
-    (fun _ x hx => decSEP_enc cx hT hS (mem_sepsOf.1 (mem_dedupBy _ hx)))
+    (dedupBy (·.uuid) (sepsOf os)) (fun _ => rfl) (dedupBy_nodup_keys _ _)
+    (fun _ x hx => decSEP_enc cx hT hS (sepsOf_mem.1 (dedupBy_subset _ hx)))
   rw [regSeps, he, hd, h]; rfl
 
 theorem regSqps_ok (st : Stores) (d : Doc) (he : st.sqps = [])
@@ -142,8 +142,8 @@ theorem regSqps_ok (st : Stores) (d : Doc) (he : st.sqps = [])
   have h := addAll_map' (·.uuid) (·.uuid) (encSQP (tagTable os))
     (SequencePrediction.mapPath (relocated sd ld))
     (fun (_ : Store Atom SequencePrediction) o => decSQP st o)
-    (dedupBy (·.uuid) (sqpsOf os)) (fun _ => rfl) (dedupBy_keys_nodup _ _)
-    (fun _ x hx => decSQP_enc cx hT hS (mem_sqpsOf.1 (mem_dedupBy _ hx)))
+    (dedupBy (·.uuid) (sqpsOf os)) (fun _ => rfl) (dedupBy_nodup_keys _ _)
+    (fun _ x hx => decSQP_enc cx hT hS (sqpsOf_mem.1 (dedupBy_subset _ hx)))
   rw [regSqps, he, hd, h]; rfl
 
 theorem regCas_ok (st : Stores) (d : Doc) (he : st.cas = [])
@@ -154,8 +154,8 @@ theorem regCas_ok (st : Stores) (d : Doc) (he : st.cas = [])
   have h := addAll_map' (·.uuid) (·.uuid) (encCA (tagTable os))
     (ClipAnnotation.mapPath (relocated sd ld))
     (fun (_ : Store Atom ClipAnnotation) o => decCA st o)
-    (dedupBy (·.uuid) (casOf os)) (fun _ => rfl) (dedupBy_keys_nodup _ _)
-    (fun _ x hx => decCA_enc cx hU hT hC hA hQ (mem_casOf.1 (mem_dedupBy _ hx)))
+    (dedupBy (·.uuid) (casOf os)) (fun _ => rfl) (dedupBy_nodup_keys _ _)
+    (fun _ x hx => decCA_enc cx hU hT hC hA hQ (casOf_mem.1 (dedupBy_subset _ hx)))
   rw [regCas, he, hd, h]; rfl
 
 theorem regCps_ok (st : Stores) (d : Doc) (he : st.cps = [])
@@ -166,8 +166,8 @@ theorem regCps_ok (st : Stores) (d : Doc) (he : st.cps = [])
   have h := addAll_map' (·.uuid) (·.uuid) (encCP (tagTable os))
     (ClipPrediction.mapPath (relocated sd ld))
     (fun (_ : Store Atom ClipPrediction) o => decCP st o)
-    (dedupBy (·.uuid) (cpsOf os)) (fun _ => rfl) (dedupBy_keys_nodup _ _)
-    (fun _ x hx => decCP_enc cx hT hC hA hQ (mem_cpsOf.1 (mem_dedupBy _ hx)))
+    (dedupBy (·.uuid) (cpsOf os)) (fun _ => rfl) (dedupBy_nodup_keys _ _)
+    (fun _ x hx => decCP_enc cx hT hC hA hQ (cpsOf_mem.1 (dedupBy_subset _ hx)))
   rw [regCps, he, hd, h]; rfl
 
 theorem regMatches_ok (st : Stores) (d : Doc) (he : st.ms = [])
@@ -176,8 +176,8 @@ theorem regMatches_ok (st : Stores) (d : Doc) (he : st.ms = [])
     regMatches st d = .ok { st with ms := (ideal os (relocated sd ld)).ms } := by
   have h := addAll_map' (·.uuid) (·.uuid) encMatch (Match.mapPath (relocated sd ld))
     (fun (_ : Store Atom Match) o => (pure (decMatch st o) : Except Err Match))
-    (dedupBy (·.uuid) (matchesOf os)) (fun _ => rfl) (dedupBy_keys_nodup _ _)
-    (fun _ x hx => congrArg Except.ok (decMatch_enc cx hP hA (mem_matchesOf.1 (mem_dedupBy _ hx))))
+    (dedupBy (·.uuid) (matchesOf os)) (fun _ => rfl) (dedupBy_nodup_keys _ _)
+    (fun _ x hx => congrArg Except.ok (decMatch_enc cx hP hA (matchesOf_mem.1 (dedupBy_subset _ hx))))
   rw [regMatches, he, hd, h]; rfl
 
 end reg
